@@ -55,6 +55,13 @@ extracted private member helpers count at the helper call (c20_util.carriers); a
 that builds the DiffObject, the loop that steps `data = item->next()`), not by the helper's name; loop forms (for / while /
 do-while / for(;;) with explicit exit) are not distinguished.
 
+ P1         every postfix operator++(int) of ItemIterator / DiffIterator / InputIterator / CollectionIterator = copy of *this,
+            then the prefix increment exactly once (or everything the prefix does: same member calls / member updates, must
+            and may), return the copy taken before the advance
+ R2         InputIterator: every read() of the source is followed on every path by binding the shared_ptr<Buffer> member to a
+            freshly allocated object (make_shared / new) or by the end-of-input reset; nothing writes through the shared
+            pointer (assignment to / mutator call on the pointee): copies of the iterator keep their own buffer alive
+
 All eight clauses of DESIGN.md section 5 "C20" are implemented (clause 4, sibling agreement, follows from comparing every
 overload with the same oracle).  Instances are keyed by what the oracle REQUIRES (callback x case, callback x constness),
 so a dropped call / case / overload is a violated instance, not a vanished one.
@@ -62,8 +69,7 @@ so a dropped call / case / overload is a violated instance, not a vanished one.
 Not decided: behaviour of the DiffIterator on all run-length patterns; evaluation order inside user handlers; that
 ChainHandler / DynamicHandler forward only node/way/relation/area/changeset/flush (osm_object and the sub-item callbacks of
 chained or dynamic sub-handlers are never called -- by construction of those classes, reported as an observation only);
-make_handler's SFINAE selection (a wrong selection does not compile); postfix operator++ of the iterators; that
-update_buffer skips empty buffers.  Observation (compile time, no rule): apply_diff(Buffer&) / apply_diff(const Buffer&)
+make_handler's SFINAE selection (a wrong selection does not compile); that update_buffer skips empty buffers.  Observation (compile time, no rule): apply_diff(Buffer&) / apply_diff(const Buffer&)
 cannot be instantiated (Buffer::begin() iterates OSMEntity, DiffIterator static_asserts OSMObject).
 """
 from ..c20_util import (Oracle, Shape, split_ref, strip_const, expected_calls, xroot, has_explicit_cast, name_of, enum_paths,
@@ -1905,6 +1911,197 @@ def inputiterator_rules(fb, R, O):
         R.check(not msgs, 'R1-inputiterator-refill', INIT + '::operator++()#refill', fn.site, '; '.join(msgs))
 
 
+# ================================================================================================ postfix increment / fresh buffer
+
+ITER_CLASSES = [ITIT, DIT, INIT, 'osmium::memory::CollectionIterator']
+
+
+def _on_this(fn, n):
+    return n.get('recv') is None or (xroot(fn, n['recv'], free_calls=False) or (None,))[0] == 'this'
+
+
+def _incr_events(fb, fn, depth=0, must_only=True):
+    """What an increment operator does on every normal path, as a set: ('call', member function) for calls of other
+    member functions on *this, ('assign', field), ('inc', field); the must-events of the called members are included."""
+    ev = set()
+    for n in fn.all_nodes():
+        k = n.get('k')
+        e = None
+        sub = None
+        if k == 'call' and n.get('op') in ('++', '--') and n.get('recv') is not None and _this_field(fn, n['recv']):
+            e = ('inc' + n['op'], _this_field(fn, n['recv']))
+        elif k == 'unop' and n.get('op') in ('++', '--') and _this_field(fn, n['sub']):
+            e = ('inc' + n['op'], _this_field(fn, n['sub']))
+        elif k == 'assign' and _this_field(fn, n['lhs']):
+            e = ('assign', _this_field(fn, n['lhs']))
+        elif k == 'call' and n.get('op') == '=' and n.get('recv') is not None and _this_field(fn, n['recv']):
+            e = ('assign', _this_field(fn, n['recv']))
+        elif k == 'call' and fn.cls and n.get('rcls') == fn.cls and 'u' in n and _on_this(fn, n) and n.get('op') is None:
+            e = ('call', n.get('q'))
+            sub = n
+        if e is None or n['id'] not in fn.positions() or (must_only and not must_pass(fn, [n['id']])):
+            continue
+        ev.add(e)
+        if sub is not None and depth < 3:
+            for g in fb.by_usr.get(sub['u'], []):
+                if g.clsT == fn.clsT and g.has_cfg and g is not fn:
+                    ev |= _incr_events(fb, g, depth + 1, must_only)
+                    break
+    return ev
+
+
+def postfix_rules(fb, R, O):
+    """P1: every postfix operator++(int) of the iterator classes = copy of *this, then the prefix increment (or everything
+    the prefix increment does on every path: the same member calls / member updates), then return the copy."""
+    found = 0
+    for cls in ITER_CLASSES:
+        ops = fb.fns(cls + '::operator++')
+        posts = [f for f in ops if len(f.params) == 1 and f.params[0]['tC'] == 'int']
+        pres = {f.clsT: f for f in ops if not f.params}
+        if not posts:
+            declared = any(m['name'] == 'operator++' and m['params'] == ['int'] for r in fb.records_named(cls) for m in r.methods)
+            if declared or not fb.records_named(cls):
+                R.broken('%s: postfix operator++ is declared but not instantiated by the driver' % cls)
+            continue
+        for fn in posts:
+            key = '%s::operator++(int)#agrees-with-prefix' % cls
+            pre = pres.get(fn.clsT)
+            if pre is None:
+                R.broken('%s has a postfix but no prefix operator++' % fn.clsT)
+                continue
+            found += 1
+            msgs = []
+            adv = carriers(fb, fn, lambda g, n: n.get('k') == 'call' and n.get('u') == pre.usr and _on_this(g, n))
+            if adv and must_pass(fn, adv) and not may_repeat(fn, adv):
+                points = adv
+            else:
+                want, got = _incr_events(fb, pre), _incr_events(fb, fn)
+                # what the prefix does on every path must happen on every path; what it does on some path (refill at a
+                # buffer boundary, guarded advance) must at least be present
+                missing = sorted((want - got) | (_incr_events(fb, pre, must_only=False) - _incr_events(fb, fn, must_only=False)))
+                points = []
+                if adv:
+                    msgs.append('the prefix increment is not executed exactly once on every path')
+                elif missing or not want:
+                    msgs.append('does not go through the prefix increment and omits what operator++() does on every path: %s'
+                                % ', '.join('%s %s' % e for e in missing))
+                else:
+                    points = [n['id'] for n in fn.all_nodes() if n['id'] in fn.positions() and
+                              (n.get('k') in ('call', 'assign', 'unop')) and
+                              ((n.get('k') == 'call' and n.get('rcls') == fn.cls and _on_this(fn, n) and n.get('op') is None) or
+                               (n.get('k') == 'assign' and _this_field(fn, n['lhs'])))]
+            # the copy: a local of the class type initialised from *this, taken before the advance and returned
+            copies = {}
+            for d in fn.all_nodes():
+                if d.get('k') == 'decl':
+                    for v in d['vars']:
+                        if isinstance(v.get('init'), int) and strip_const(v['tC']) == fn.clsT and xroot(fn, v['init'], free_calls=False) == ('this',):
+                            copies[v['d']] = d['id']
+            rets = [n for n in fn.all_nodes() if n.get('k') == 'return' and 'sub' in n]
+            if not copies:
+                msgs.append('no copy of *this is taken')
+            else:
+                for r in rets:
+                    rv = xroot(fn, r['sub'], free_calls=False)
+                    if rv is None or rv[0] != 'var' or rv[1] not in copies:
+                        msgs.append('the value returned is not the copy taken before the increment')
+                        break
+                if not rets:
+                    msgs.append('nothing is returned')
+                for pnt in points:
+                    if not any(fn.elem_dominates(c, pnt) for c in copies.values()):
+                        msgs.append('the copy is taken after the iterator has been advanced')
+                        break
+            R.check(not msgs, 'P1-postfix-increment-agrees-with-prefix', key, fn.site, 'operator++(int): ' + '; '.join(sorted(set(msgs))))
+    if found == 0:
+        R.broken('no postfix increment operator of the iterator classes instantiated')
+
+
+BUFFER_MUTATORS = {'operator=', 'swap', 'grow', 'reserve_space', 'commit', 'rollback', 'clear', 'add_item', 'add_buffer', 'push_back',
+                   'purge_removed', 'set_full_callback', 'increment_written'}
+
+
+def fresh_buffer_rules(fb, R, O):
+    """R2: copies of an InputIterator share the Buffer through a shared_ptr, so the buffer a position points into must
+    never change: every read() of the source is followed on every path by binding the shared_ptr member to a FRESH object
+    (make_shared / new) or by the end-of-input reset, and nothing writes through the pointer."""
+    recs = fb.records_named(INIT)
+    if not recs:
+        R.broken('InputIterator not instantiated')
+        return
+    n_read = 0
+    for rec in recs:
+        bufs = [f['name'] for f in rec.fields if f['tC'].startswith('std::shared_ptr<') and 'osmium::memory::Buffer' in f['tC']]
+        srcs = [f['name'] for f in rec.fields if f.get('ptr') and not f['tC'].startswith('std::')]
+        if len(bufs) != 1 or not srcs:
+            R.broken('%s: cannot identify the shared buffer member / the source pointer by type' % rec.full)
+            continue
+        bf = bufs[0]
+        fns = [f for f in fb.functions if f.clsT == rec.full and not f.is_lambda and f.has_cfg]
+        # (a) no write through the shared pointer
+        for fn in fns:
+            bad = []
+            for n in fn.all_nodes():
+                if n.get('k') == 'call' and n.get('recv') is not None and name_of(n.get('q', '')) in BUFFER_MUTATORS and \
+                        n.get('rcls') == 'osmium::memory::Buffer' and xroot(fn, n['recv'], free_calls=False) == ('field', bf) and \
+                        not fn.is_this_member(n['recv'], bf):
+                    bad.append(n)
+                elif n.get('k') == 'call' and name_of(n.get('q', '')) == 'swap' and n.get('recv') is None and \
+                        any((xroot(fn, a, free_calls=False) == ('field', bf)) and _deref_sub(fn, a) is not None for a in n.get('args', [])):
+                    bad.append(n)
+            if bad or fn.name in ('update_buffer',) or any(x.get('k') == 'call' and name_of(x.get('q', '')) == 'read' for x in fn.all_nodes()):
+                R.check(not bad, 'R2-inputiterator-fresh-buffer-per-read', '%s::%s#no-write-through-shared-buffer' % (INIT, fn.name),
+                        fn.loc(bad[0]['id']) if bad else fn.site,
+                        'the shared Buffer object is modified in place (%s): every copy of the iterator (DiffIterator keeps prev/curr/next) '
+                        'still points into the old contents' % (fn.expr(bad[0]['id'])[:80] if bad else ''))
+        # (b) each read is followed by a rebinding to a fresh object (or the end-of-input reset)
+        for fn in fns:
+            reads = [n for n in fn.all_nodes() if n.get('k') == 'call' and name_of(n.get('q', '')) == 'read' and n.get('recv') is not None and
+                     (xroot(fn, n['recv'], free_calls=False) or (None, None))[:2] in [('field', s) for s in srcs]]
+            if not reads:
+                continue
+            n_read += 1
+
+            def fresh_bind(g, n, bf=bf):
+                if _is_default_reset(g, n, bf):
+                    return True
+                rhs = None
+                if n.get('k') == 'call' and n.get('op') == '=' and n.get('recv') is not None and n.get('args') and g.is_this_member(n['recv'], bf):
+                    rhs = n['args'][0]
+                elif n.get('k') == 'call' and name_of(n.get('q', '')) == 'reset' and n.get('recv') is not None and n.get('args') and \
+                        g.is_this_member(n['recv'], bf):
+                    rhs = n['args'][0]
+                if rhs is None:
+                    return False
+                seen = set()
+                work = [rhs]
+                while work:
+                    x = work.pop()
+                    for y in g.subtree(x):
+                        if y in seen:
+                            continue
+                        seen.add(y)
+                        ny = g.nodes[y]
+                        if ny.get('k') == 'new' or (ny.get('k') == 'call' and ny.get('q') in ('std::make_shared', 'std::allocate_shared')):
+                            return True
+                        if ny.get('k') == 'var' and ny.get('vk') == 'local':
+                            init = _single_init(g, ny['d'])
+                            if init is not None:
+                                work.append(init)
+                return False
+            binds = carriers(fb, fn, fresh_bind)
+            msgs = []
+            for rd in reads:
+                w = normal_exit_avoiding(fn, rd['id'], binds)
+                if w is not None:
+                    msgs.append('after %s a path leaves %s without binding %s to a freshly allocated Buffer (make_shared / new) or '
+                                'resetting it' % (fn.expr(rd['id']), fn.name, bf))
+                    break
+            R.check(not msgs, 'R2-inputiterator-fresh-buffer-per-read', '%s::%s#fresh-buffer-per-read' % (INIT, fn.name), fn.site, '; '.join(msgs))
+    if n_read == 0:
+        R.broken('InputIterator: no member function reads from the source')
+
+
 def run(ctx):
     R = ctx.R
     configs = ['ndebug14'] if ctx.tier == 'quick' else ['ndebug14', 'debug14', 'ndebug17', 'debug17']
@@ -1952,10 +2149,12 @@ def run(ctx):
     R.expect('C2-chain-step-calls-nth-then-next', 6)
     R.expect('R1-inputiterator-end-state', 1)
     R.expect('R1-inputiterator-refill', 1)
+    R.expect('R2-inputiterator-fresh-buffer-per-read', 2)   # no write through the shared pointer; fresh buffer after read()
+    R.expect('P1-postfix-increment-agrees-with-prefix', 4)  # ItemIterator, DiffIterator, InputIterator, CollectionIterator
 
 
 PARTS = [dispatch_rules, diff_dispatch_rules, wrapper_rules, apply_rules, itemiterator_rules, diffiterator_rules,
-         diffobject_rules, apply_diff_rules, dynamic_rules, chain_rules, inputiterator_rules]
+         diffobject_rules, apply_diff_rules, dynamic_rules, chain_rules, inputiterator_rules, postfix_rules, fresh_buffer_rules]
 
 
 def _selftest(part):
@@ -1985,4 +2184,5 @@ SELFTESTS = [
     ('X4-deref-refreshes-diff', _POS, _selftest(diffiterator_rules)),
     ('X4-equality-on-current-position', _POS, _selftest(diffiterator_rules)),
     ('X5-diffobject-roles', _POS, _selftest(diffobject_rules)),
+    ('P1-postfix-increment-agrees-with-prefix', _POS, _selftest(postfix_rules)),
 ]
